@@ -180,6 +180,7 @@ fn regex_rule(r: &mut Rng) -> String {
         _ => base,
     }
 }
+const DOM_POOL: &[&str] = &["first.example", "second.example", "third.example"];
 fn gen_op(r: &mut Rng, accepted: &[String]) -> Op {
     // tag lists of 0-4 entries with repetitions, over the rule tags plus a tag no rule carries: a
     // disable / enable call that mixes enabled, not-enabled and unknown tags is the ordinary case
@@ -197,6 +198,16 @@ fn gen_op(r: &mut Rng, accepted: &[String]) -> Op {
         10 => Op::Policy(r.pick(&[1u64, 1, 1_000_000_000_000]), r.pick(&[0u64, 0, 1_000_000_000_000])),
         11 => Op::DiscardAll,
         12 => if r.chance(2, 3) { Op::Optimize } else { Op::DiscardAll },
+        // rules dispatched per initiator domain (no pattern token: one token group, and one bucket, per
+        // `domain=` entry) over a pool of three domains, so that a later rule's domains already have
+        // populated buckets
+        14 => {
+            let k = r.range(1, 3);
+            let mut ds: Vec<&str> = vec![];
+            while ds.len() < k { let d = r.pick(DOM_POOL); if !ds.contains(&d) { ds.push(d) } }
+            Op::Add(format!("{}${},domain={}", r.pick(&["", "", "*", "@@"]), r.pick(&["script", "image", "xhr"]), ds.join("|")))
+        }
+        15 => Op::Query(gen::url(r).replace('*', "1"), format!("https://{}{}/page", r.pick(&["", "www.", "a.b."]), r.pick(DOM_POOL)), r.pick(&["script", "image", "xhr"]).to_string()),
         _ => {
             let url = if r.chance(1, 4) { format!("https://{}/fam{}/x{}", r.pick(gen::HOSTS), r.below(2), r.below(5)) } else if r.chance(2, 3) && !accepted.is_empty() { { let k = r.below(accepted.len()); gen::url_for(r, &accepted[k]) } } else { gen::url(r) };
             let url = url.replace('*', "1");
